@@ -61,14 +61,6 @@ Definition rows_ok (sepc : Z) (obs : str) (nrows ncols : Z) (hdr_too : bool) : b
 '''
 
 EXN = {'TypeError': 1, 'ValueError': 2, 'IndexError': 3, 'AssertionError': 4, 'RuntimeError': 5}
-FINDINGS = {
-    'block-total-size': ('DomainDefinition.write_to_vti', 'block vectors are sorted into point/cell data by the length of their vector axis',
-                         '2-D array, one axis a multiple of nnodes, no axis a multiple of nel, total size a multiple of nel'),
-    'single-vector-2d-block': ('DomainDefinition.write_to_vti', '2-D vector block with one vector is padded to three components',
-                               '2-D array with one vector of 2*nnodes entries on a 2-D domain'),
-    'single-entry-array': ('ScalarToFile._response', 'arrays with one entry are logged', 'ndarray with ndim >= 1 and size 1'),
-}
-
 
 def exn_code(e):
     if e is None:
@@ -429,7 +421,7 @@ def logval_lit(obj, fmt):
     """Coq literal of a logged value; entries are already formatted (float.__format__ is the oracle)"""
     if isinstance(obj, np.ndarray) and obj.ndim >= 1:
         forder = obj.ndim == 2 and obj.flags.f_contiguous and not obj.flags.c_contiguous
-        ents = [x.__format__(fmt) for x in np.ascontiguousarray(obj).ravel()] if obj.size > 1 else ['?'] * obj.size
+        ents = [x.__format__(fmt) for x in np.ascontiguousarray(obj).ravel()]
         return f'(LArr {zl(list(obj.shape))} [{";".join(sl(e) for e in ents)}] {blit(forder)})'
     return f'(LNum {sl(obj.__format__(fmt))})'
 
@@ -540,26 +532,19 @@ def gen_vector(rng, dom3, name, want=None):
     else:
         n = rng.choice([nel, nn, nn])
         comp = rng.choice([1, dim, dim, 2, 3] if n == nn else [1, 1, 3])
-        k = rng.choice([2, 2, 3, 4, 5, 10, 11])
+        k = rng.choice([1, 2, 2, 3, 4, 5, 10, 11])
         shape = [k, comp * n] if rng.random() < 0.6 else [comp * n, k]
     size = int(np.prod(shape))
     return dict(name=name, shape=shape, values=rand_values(rng, size, style), dtype=dtype, layout=lay)
 
 
 def is_unambiguous(dom3, shape):
-    """the property's quantifier read on the sizes in play: kind and vector axis are determined by the sizes, and the
-    total size (which the implementation looks at) agrees with it"""
+    """the property's quantifier read on the sizes in play: exactly one (axis, kind) pair fits, i.e. the sizes determine
+    kind, vector axis and component count (plain vectors: the size fits one of nel / nnodes only)"""
     a, b, c = dom3
     nel, nn = a * b * max(c, 1), (a + 1) * (b + 1) * (c + 1)
     cands = [(ax, k) for ax in range(len(shape)) for k, n in (('cell', nel), ('point', nn)) if shape[ax] > 0 and shape[ax] % n == 0]
-    if len(cands) != 1:
-        return False
-    size = int(np.prod(shape))
-    if cands[0][1] == 'point' and size % nel == 0:
-        return False
-    if len(shape) == 2 and shape[1 - cands[0][0]] == 1 and cands[0][1] == 'point' and (shape[cands[0][0]] // nn == 2) and c == 0:
-        return False   # single-vector 2-D block on a 2-D domain: see finding 'single-vector-2d-block'
-    return True
+    return len(cands) == 1
 
 
 def gen_vti_spec(rng, quick, doms):
@@ -680,9 +665,9 @@ def gen_logval(rng, proto=None):
     if proto is None:
         t = rng.choice(['float', 'float', 'np.float64', 'np.float64', 'int', '0d', 'np.float32', 'arr1', 'arr1', 'arr2', 'arr2F'])
         if t == 'arr1':
-            proto = dict(type='array', shape=[rng.choice([2, 3, 4, 6])])
+            proto = dict(type='array', shape=[rng.choice([1, 2, 3, 4, 6])])
         elif t == 'arr2':
-            proto = dict(type='array', shape=[rng.choice([1, 2, 3]), rng.choice([2, 3])])
+            proto = dict(type='array', shape=[rng.choice([1, 2, 3]), rng.choice([1, 2, 3])])
         elif t == 'arr2F':
             proto = dict(type='array', shape=[rng.choice([2, 3]), rng.choice([2, 3])], layout='F')
         else:
@@ -715,27 +700,16 @@ def gen_log_spec(rng):
 
 
 def gen_log_malformed(rng):
-    what = rng.choice(['one-entry', 'empty', 'one-entry-2d'])
-    shape = {'one-entry': [1], 'empty': [0], 'one-entry-2d': [1, 1]}[what]
+    """arrays without entries: np.nditer refuses them (ValueError); only the exception class is compared"""
+    what = rng.choice(['empty', 'empty-2d'])
+    shape = {'empty': [0], 'empty-2d': [2, 0]}[what]
     good = dict(type='float', value=1.5)
-    bad = dict(type='array', shape=shape, values=[2.0] * int(np.prod(shape)))
+    bad = dict(type='array', shape=shape, values=[])
     its = [[good, bad]] if rng.random() < 0.5 else [[bad, good], [bad, good]]
     return dict(kind='log', tags=['a', 'b'], iterations=its, saveto='log.txt', fmt=rng.choice(['.3e', 'g']), **{'class': 'malformed:' + what})
 
 
 # ----------------------------------------------------------------------------- oracle (implementation-side property)
-def report_finding(ctx, key, case, expected=None, got=None):
-    """a NEW defect found while building this check: matched against known_findings.json when the integrator has
-    registered it (then it prints KNOWN-FINDING), recorded in the evidence otherwise"""
-    cs, pred, icls = FINDINGS[key]
-    if any(f['call_site'] == cs and f['predicate'] == pred and f['input_class'] == icls and f.get('status') == 'known' for f in ctx.findings):
-        ctx.violation('impl-violates', cs, pred, icls, case, expected=expected, got=got)
-    else:
-        lst = ctx.extra.setdefault('unregistered_findings', {})
-        e = lst.setdefault(key, dict(call_site=cs, predicate=pred, input_class=icls, count=0, example=case, expected=expected, got=got))
-        e['count'] += 1
-
-
 def oracle_vti_file(ctx, dom, vectors, data, scale, origin, unit, site, case):
     """the property, stated on the implementation's file with python's own decoders. returns list of (predicate, expected, got)"""
     bad = []
@@ -801,15 +775,9 @@ def oracle(ctx, pym, jobs):
             _, spec, dom, vectors, data, err, scale, origin, unit = job
             cls = spec.get('class', 'structured')
             case = dict(spec=spec)
-            amb_total = [k for k, a in vectors.items() if a.ndim == 2 and _point_but_total_cell(dom, a)]
-            one_vec = [k for k, a in vectors.items() if _single_vector_2d_block(dom, a)]
             if err is not None:
                 if cls == 'structured':
                     ctx.violation('impl-violates', 'DomainDefinition.write_to_vti', 'writes without raising', cls, case, got=repr(err)[:300])
-                elif amb_total and isinstance(err, TypeError):
-                    report_finding(ctx, 'block-total-size', case, expected='point data, one array per vector', got=repr(err)[:200])
-                elif one_vec and isinstance(err, ValueError):
-                    report_finding(ctx, 'single-vector-2d-block', case, expected='one 3-component point array', got=repr(err)[:200])
                 continue
             if data is None:
                 if cls == 'structured' and any(spec_entry(dom, a) not in (None, 'skip') for a in vectors.values()):
@@ -847,10 +815,7 @@ def oracle(ctx, pym, jobs):
             case = dict(spec=spec)
             cls = spec.get('class', 'structured')
             if err is not None:
-                if cls.startswith('malformed') and isinstance(err, TypeError):
-                    if 'one-entry' in cls:
-                        report_finding(ctx, 'single-entry-array', case, expected='a row with one column for the entry', got=repr(err)[:200])
-                else:
+                if not cls.startswith('malformed'):
                     ctx.violation('impl-violates', 'ScalarToFile._response', 'logs without raising', cls, case, got=repr(err)[:300])
                 continue
             text = files[spec['saveto']].decode()
@@ -905,17 +870,6 @@ def _within_format(v, parsed, fmt):
     return abs(parsed - v) <= 0.5000001 * 10.0 ** (-digits) * mag * 1.0000001 + slack
 
 
-def _point_but_total_cell(dom, a):
-    """2-D block whose axes say 'point data' (exactly one axis is a multiple of nnodes, none of nel) while the total size is a
-    multiple of nel"""
-    sp_ = spec_entry(dom, a)
-    return sp_ is not None and sp_ != 'skip' and sp_[0] == 'point' and a.size % dom.nel == 0
-
-
-def _single_vector_2d_block(dom, a):
-    return a.ndim == 2 and dom.dim == 2 and 1 in a.shape and max(a.shape) == 2 * dom.nnodes and a.size % dom.nel != 0
-
-
 # ----------------------------------------------------------------------------- main
 def load_corpus():
     d = os.path.join(vlib.ROOT, 'corpus', 'C20')
@@ -937,19 +891,18 @@ def run(ctx):
                 'nel, nnodes not multiples of each other (2-D and 3-D), 1-4 vectors (cell/point/block, both block orientations, 2..11 '
                 'vectors per block, C/F/strided layouts, f8/f4/i8), scales, origins, element sizes, file names, overwrite modes, formats, '
                 'separators; a malformed stream (sizes that fit neither, ambiguous sizes, 3-D arrays, empty inputs, special float values, '
-                'one-entry arrays) compares the exception class / the as-written behaviour only.  A case is non-trivial when a file with at '
+                'empty logged arrays) compares the exception class / the as-written behaviour only.  A case is non-trivial when a file with at '
                 'least one array (one row) was written; distinct by (kind, domain, shapes, options, file name, outcome).')
     ctx.assumptions += [
         'little-endian host (sys.byteorder == "little"); the model writes byte_order="LittleEndian" and "<Q"/"<f4"',
         'the value of the UInt64 block header is modelled as written (length of the base64 text); the property does not fix it',
         'array names are ASCII without XML special characters (names are not escaped by write_to_vti)',
         'ScalarToFile signals hold real scalars or C-/F-contiguous arrays; complex values and other memory layouts are not generated',
-        'the classification theorem needs: the total size c*nnodes of a point vector is not a multiple of nel (the literal quantifier '
-        '"counts not multiples of each other" is not sufficient: C20_classification_literal_refuted); the oracle treats sizes that fit '
-        'both kinds as undetermined',
-        'three defects of the code are reproduced by the faithful model (C20_block_total_size_refuted, C20_single_vector_block_refuted, '
-        'C20_log_single_entry_refuted); their witnesses are in corpus/C20 and are reported as NOTE lines until they are registered in '
-        'known_findings.json (then as KNOWN-FINDING)']
+        'the classification theorem for plain vectors needs: the size c*nnodes of a point vector is not a multiple of nel (the literal '
+        'quantifier "counts not multiples of each other" is not sufficient: C20_classification_literal_refuted); the oracle treats sizes '
+        'that fit both kinds as undetermined; block vectors are classified by their axes (C20_classification_blocks)',
+        'the three defects found while building this check (F21, F22, F23) are repaired in /repo; the model follows the repaired code and '
+        'their witnesses run first on every check as structured cases (corpus/C20/fixed_defects.json)']
     ctx.trusted += [
         'oracles (Section variables / inputs of the executable model, validated per run): ndarray.astype(float32) per entry (contract: 4 bytes, '
         'value within half an ulp, checked in Coq by f32_close on every generated finite value), float.__format__ / int.__format__ of logged values, '
@@ -1029,9 +982,6 @@ def run(ctx):
         ctx.violation('correspondence', site, 'model == implementation: ' + ','.join(which), lab['spec'].get('class', 'structured'),
                       dict(spec=lab['spec'], failing_parts=which), note='Coq model and implementation differ')
     oracle(ctx, pym, jobs)
-    for key, e in ctx.extra.get('unregistered_findings', {}).items():
-        print(f'NOTE: property=C20 new finding (not yet in known_findings.json) {key}: {e["call_site"]} / {e["predicate"]} / '
-              f'{e["input_class"]} ({e["count"]} case(s))')
 
 
 if __name__ == '__main__':
